@@ -153,3 +153,28 @@ MANIFEST_TEXT["C04"] = {
              "implication in its actual context by z3; each tactic must be accepted at least once per supported mode."),
     "note": "Trusted: CPython, z3, pvm/exact.py. L1 verdict point is the dispatcher's return (a tactic result it discards is a decline).",
 }
+
+META["C19"] = {
+    "level": "exploration",
+    "rule": ("cases = a base Var / term / term list / contract / compound contract (small-integer or dyadic data, zero "
+             "constants planted) and every single-field edit of it (identical, variable order, one coefficient, one "
+             "constant, signed zero, term added/removed/reordered, inputs/outputs permuted/extended/changed), plus "
+             "copy, machine round trip and equal-by-construction triples. For each pair: == both ways, required "
+             "answer where the edit fixes it, hash agreement whenever ==. Non-trivial = every case; distinct = case "
+             "digests."),
+    "required": ["pairs:IoContract:outputs-extra", "pairs:IoContract:inputs-extra", "pairs:IoContract:copy",
+                 "pairs:IoContract:guarantee-constant", "pairs:IoContract:guarantee-signed-zero-constant",
+                 "pairs:PolyhedralTerm:signed-zero-constant", "pairs:PolyhedralTerm:copy",
+                 "pairs:PolyhedralTermList:copy", "pairs:PolyhedralTermList:signed-zero-constant",
+                 "pairs:IoContractCompound:outputs-extra", "pairs:Var:name", "triples", "hash-agree:IoContract"],
+    "assumptions": [TB, "permuted interface lists and permuted term order may compare either way (the property only "
+                    "fixes genuine differences and identical copies) but must stay symmetric and hash-coherent"],
+    "soft_s": {"quick": 200, "thorough": 2000},
+}
+MANIFEST_TEXT["C19"] = {
+    "technique": RM + "reference structural equality over single-field edits; ==, hash and copy of the real classes observed on every pair",
+    "text": ("Exploration: for every generated base object and each single-field edit the real ==, hash() and copy() "
+             "are executed and compared with the answer the property fixes (must-equal / must-differ / free), "
+             "symmetry, transitivity on triples and hash agreement."),
+    "note": "Trusted: CPython and the edit generator (each edit changes exactly the named field).",
+}
